@@ -163,6 +163,10 @@ fn c13_open_exactness() {
         let want = parse_trailer(b).is_ok();
         let got = catch_unwind(AssertUnwindSafe(|| Reader::new(Cursor::new(b)).is_ok())).unwrap_or_else(|_| cex(format!("C13 Reader::new panicked on {} bytes tail={}", b.len(), hex(&b[b.len().saturating_sub(22)..]))));
         *cases += 1; if got { *accepted += 1; }
+        // the same bytes behind a source that splits every read into pieces of 1..=3 bytes and reports Interrupted at random:
+        // acceptance depends on the bytes only, not on how the source delivers them
+        let got_split = catch_unwind(AssertUnwindSafe(|| Reader::new(SchedSource::new(b.to_vec(), 77 + *cases as u64, 3, true)).is_ok())).unwrap_or_else(|_| cex(format!("C13 Reader::new panicked on a splitting source, {} bytes", b.len())));
+        if got_split != want { cex(format!("C13 Reader::new on a source delivering reads in 1..=3-byte pieces {} a {}-byte string whose tail {} a valid trailer: tail={}", if got_split { "accepts" } else { "rejects" }, b.len(), if want { "is" } else { "is not" }, hex(&b[b.len().saturating_sub(22)..]))); }
         if got != want { cex(format!("C13 Reader::new {} a {}-byte string whose tail {} a valid trailer: tail={}", if got { "accepts" } else { "rejects" }, b.len(), if want { "is" } else { "is not" }, b[b.len().saturating_sub(22)..].iter().map(|x| format!("{:02x}", x)).collect::<String>())); }
     };
     for (cfg, es) in scenarios(&mut rng).into_iter().take(if tier_thorough() { 40 } else { 10 }) {
